@@ -55,7 +55,7 @@ ASSUMPTIONS = [
     "within max_distance, a NaN at a cell with D* <= max_distance is reported by the exactness relation",
     "exactness p == D* is asserted on every exhaustively enumerated grid (<= 16 cells; the quick tier runs the <= 4-target "
     "layouts of the 4x4 grid that the thorough tier enumerates completely) and for single-target layouts; on "
-    "sparse_6x6 (not an exhaustive layout space) it is only counted for layouts with 2-3 targets",
+    "the other sparse_* grids (6x6, 2x8, 8x2: not exhaustive layout spaces) it is only counted for layouts with >= 2 targets",
     "not generated: +-inf cells, NaN or inf inside target_values, max_distance <= 0 or NaN, dask-backed rasters (C07), "
     "rasters without coordinates, dims other than ('y','x')",
     "explicit target_values are run on {0,T} layouts whose T cells carry the class value 1 + (row+col) % 3 "
@@ -421,10 +421,11 @@ class Conf3x3Space(ProxSpace):
 
 TIERS = {
     "quick": dict(thin=[(1, 1), (1, 2), (2, 1), (1, 5), (5, 1), (2, 2)], default=[((3, 3), 3)], dtypes=(3, 3),
-                  config=((3, 3), 3), sparse=[((4, 4), 4, True)], slice=(4, 2)),
+                  config=((3, 3), 3), sparse=[((4, 4), 4, True), ((6, 6), 2, False), ((2, 8), 3, False), ((8, 2), 3, False)],
+                  slice=(4, 2)),
     "thorough": dict(thin=[(1, 1), (1, 2), (2, 1), (1, 5), (5, 1), (2, 2), (1, 7), (7, 1), (2, 3), (3, 2)],
                      default=[((3, 3), 3), ((2, 5), 3), ((3, 4), 3), ((4, 4), 2)], dtypes=(3, 3),
-                     config=((3, 4), 4), sparse=[((6, 6), 3, False)], slice=(32, 4)),
+                     config=((3, 4), 4), sparse=[((6, 6), 3, False), ((2, 8), 4, False), ((8, 2), 4, False)], slice=(32, 4)),
 }
 BOUNDS = {t: {"default_configuration": [dict(shape=list(s), letters=["0", "T", "NaN"][:n]) for s, n in b["default"]],
               "thin_shapes_3letters": [list(s) for s in b["thin"]],
